@@ -306,6 +306,9 @@ class ComposedNode(ConfigNode):
             if not _this_path:
                 _this_path = '<top-level node>'
 
+            # children which this merge removes are taken out only after all children of "other" have been matched:
+            # removing an element of a list renumbers the ones behind it, the keys of "other" refer to the list as it was
+            to_remove = []
             for key, value in other._children.items():
                 child = self.ayns.get_child(key, None)
                 if child is None:
@@ -318,16 +321,21 @@ class ComposedNode(ConfigNode):
 
                     if merge:
                         if not possibly_new_child and not possibly_new_child.ayns.has_priority_over(value) and value.ayns.explicit_delete:
-                            self.ayns.remove_child(key)
+                            to_remove.append(key)
                         elif possibly_new_child is not child:
                             self.ayns.set_child(key, possibly_new_child)
                     else:
                         if possibly_new_child is not child:
                             possibly_new_child.ayns._require_all_new(path + [key], f'last parent: {_this_path!r}, from file: {self.ayns.source_file!r}', include_self=False)
                             if not possibly_new_child and possibly_new_child.ayns.explicit_delete:
-                                self.ayns.remove_child(key)
+                                to_remove.append(key)
                             else:
                                 self.ayns.set_child(key, possibly_new_child)
+
+            if to_remove and isinstance(self, list):
+                to_remove = sorted({ (len(self) + int(key)) if key < 0 else int(key) for key in to_remove }, reverse=True)
+            for key in to_remove:
+                self.ayns.remove_child(key)
 
             if other.ayns.has_priority_over(self, if_equal=True):
                 ret = self._replace_self(other, allow_promotions=True)
